@@ -12,6 +12,7 @@ PDF_FEATURES = {
     "multi-image-pages": "one image on each of three pages (numbering must run 1..n) (twin: three images on one page)",
     "image-only-page": "a page that has an image but no text (twin: image and a text line)",
     "empty-page": "a page with an empty content stream (twin: one text line)",
+    "large-image": "a picture of 20-120 KB (JPEG with application segments), i.e. a file well above 10 KiB and far below 10 MB (twin: the same picture without the segments)",
     "shared-image-xobject": "one image XObject (a logo) referenced from the resources of every page and drawn on each, next to pictures of the page's own (twin: one object per page holding the same bytes)",
     "shared-content-stream": "stamped / mail-merge layout: every page's /Contents is the same object 'q /Fm0 Do Q' and each page binds /Fm0 to its own form XObject holding that page's text (twin: one such content stream per page)",
 }
@@ -159,9 +160,18 @@ def build_pdf(seed: int, feature: str | None = None, twin: bool = False):
                 lines.append(exp.text(tk.new("b"), p) + " " + " ".join(num() for _ in range(ncol + extra)))
         imgs = []
 
-        def img():
+        def img(pad=0):
             wpx, hpx = rng.randint(2, 40), rng.randint(2, 40)
             data = IMG.jpeg(wpx, hpx, rng.randrange(1 << 16))
+            if pad:
+                # application segments (APP15) of incompressible bytes right after SOI: a legal JPEG of realistic size
+                prng = random.Random(f"pdf-pad:{seed}:{p}")
+                segs = b""
+                while pad > 0:
+                    n = min(pad, 60000)
+                    segs += b"\xff\xef" + (n + 2).to_bytes(2, "big") + prng.randbytes(n)
+                    pad -= n
+                data = data[:2] + segs + data[2:]
             exp.images.append({"sha": sha1(data), "ctype": "image/jpeg", "w": wpx, "h": hpx, "unit": p + 1})
             # optional alternate-text entries in the forms a PDF may legally (or sloppily) carry them
             extra = rng.choice([b"", b"", b" /Alt (plain alt text)", b" /Alt (Stra\303\237e raw utf-8)", b" /Alt <FEFF00C400620063>", b" /Alt [1 2]", b" /Title (a title) /Alt ()",
@@ -186,6 +196,8 @@ def build_pdf(seed: int, feature: str | None = None, twin: bool = False):
             del exp.images[len(exp.images) - len(own):]
             for im in imgs:
                 exp.images.append({"sha": sha1(im["data"]), "ctype": "image/jpeg", "w": im["w"], "h": im["h"], "unit": p + 1})
+        elif feature == "large-image" and p == fpage:
+            imgs = [img(pad=0 if twin else rng.randint(20000, 120000))]
         elif feature == "image-only-page" and p == fpage:
             imgs = [img()]
             if not twin:
